@@ -68,6 +68,16 @@ def check_seq(t, r, start, new):
         want = {(a, l)} if a < start else {(a + d, l)} if a > start else {(a, l), (a + d, l)}
         if not want & set(zr):
             return f"zero-length leaf {l} at time {a} is not at its (shifted) time afterwards"
+    # a zero-length DIRECT child that starts at an interior `start` belongs to "everything from start onwards":
+    # it is moved later by d (only start == duration leaves the order unconstrained)
+    if 0 < start < sp.dur(t) and d > 0:
+        o = 0
+        for c in sp.kids(t):
+            if o == start and c[0] == "L" and c[1] == 0:
+                if (start + d, c[2]) not in set(zr):
+                    return (f"zero-length child {c[2]} sitting at start={start} was not moved later by d={d} "
+                            "(everything from start onwards has to move)")
+            o += sp.dur(c)
     return None
 
 
